@@ -70,7 +70,10 @@ def impl_run_hod(payload):
             hid = set(int(x) for x in hod.halo_data['hid'])
             ref = None
             for n in c['threads']:
-                a = hod.run_hod(tracers=hod.tracers, want_rsd=c['rsd'], Nthread=n, write_to_disk=False, verbose=False)
+                # a table of NFW draws handed over WITHOUT asking for NFW satellites is documented to be ignored ("only needed if
+                # want_nfw == True"): the catalogue is the particle-based one, for every thread count
+                kw = {'NFW_draw': np.linspace(0.01, 5.0, 4000)} if c.get('nfw_draw') else {}
+                a = hod.run_hod(tracers=hod.tracers, want_rsd=c['rsd'], Nthread=n, write_to_disk=False, verbose=False, **kw)
                 b = G.gen_gal_cat({k: v for k, v in hod.halo_data.items()}, {k: v for k, v in hod.particle_data.items()}, hod.tracers,
                                   dict(hod.params), n, enable_ranks=hod.want_ranks, rsd=c['rsd'], write_to_disk=False, verbose=False)
                 for T in b:
@@ -113,5 +116,6 @@ def cases(ctx):
     out = []
     for (H, P, nslab, order) in ((40, 160, 2, 'increasing'), (60, 300, 3, 'interleaved'), (25, 90, 2, 'decreasing')):
         out.append({'H': H, 'P': P, 'nslab': nslab, 'order': order, 'seed': rng.randrange(1 << 30), 'ranks': rng.random() < 0.5,
-                    'AB': rng.random() < 0.5, 'rsd': rng.random() < 0.7, 'threads': [1, 3, 16] if ctx.quick() else [1, 2, 3, 7, 16]})
+                    'AB': rng.random() < 0.5, 'rsd': rng.random() < 0.7, 'threads': [1, 3, 16] if ctx.quick() else [1, 2, 3, 7, 16],
+                    'nfw_draw': len(out) != 1})
     return out
